@@ -32,7 +32,7 @@ from . import irkit, tkit, emit, catalog, c05, c12
 from .common import WORKERS, conc_vt, run_mutants
 
 PROP = "C16"
-FILTER = r"fbody#|#den-independent|get_exec_op_list#|#registered|lemma#|code_format#|#total|#raw|#emit|#loop|#frame"
+FILTER = r"fbody#|#den-independent|get_exec_op_list#|#registered|lemma#|code_format#|#total|#raw|#emit|#loop|#frame|update_stmt"
 
 MUTANTS = [
     {"name": "fbody: READ_STATEMENTS layout skips the read block", "file": "rzilcompiler/Transformer/RZILTransformer.py",
@@ -319,6 +319,11 @@ def gen_task(loader, check, what, replay_on=True):
     if what == "loops":
         c12.gen_emit_loops(loader, check, replay_on)
         return
+    if what == "gcc":
+        # a statement-expression guarded inside ?: keeps its operand list in sync (both layouts compute the declaration order from it)
+        from . import c06
+        c06.gen_selected(loader, check, replay_on)
+        return
     if what == "frame":
         # the text a node emits does not depend on which other node was emitted before: emitters change nothing but read /
         # declaration counters (so the two layouts, which emit in different orders, render every node identically up to DUP)
@@ -334,7 +339,7 @@ def gen_task(loader, check, what, replay_on=True):
 
 def generate_reduced(loader, check):
     check.ob_filter = FILTER
-    for w in ("shapes", "den", "exec_list", "registered", "lemma", "frame"):
+    for w in ("shapes", "den", "exec_list", "registered", "lemma", "frame", "gcc"):
         gen_task(loader, check, w, False)
 
 
@@ -345,7 +350,7 @@ def run(check: Check):
                 "every reachable node initialised exactly once in both (coverage lemma + C12 folds), texts of reads differ only by DUP")
     check.assume("A-NAMES: add_op through its contract; the holder ghost list 'added' is the registration record")
     check.ob_filter = FILTER
-    check.run_parallel("contracts.c16", "gen_task", [{"what": w} for w in ("shapes", "den", "exec_list", "registered", "lemma", "loops", "frame")], workers=WORKERS,
+    check.run_parallel("contracts.c16", "gen_task", [{"what": w} for w in ("shapes", "den", "exec_list", "registered", "lemma", "loops", "frame", "gcc")], workers=WORKERS,
                        sink_attrs={"ob_filter": FILTER})
     run_mutants(check, MUTANTS, "contracts.c16", "generate_reduced")
     return check.finish(
